@@ -406,6 +406,40 @@ def G4_numpy_container_pitfalls(repo, clause, scope=ALL_LIB):
                                                   "isinstance(numpy integer, int) is False, but %s passes `%s` (a numpy array) for `%s`: the documented call path is rejected" % (
                                                       numpy_callers[0][0].qualname, ast.unparse(numpy_callers[0][1])[:50], src_param)),
                               slot="isinstance-int:%s:%s" % (fn.qualname, src_param), positive=bool(numpy_callers)))
+    n_d = n_e = 0
+    for fn in fns:
+        for c in [x for x in fn.own_nodes() if isinstance(x, ast.Call)]:
+            nm = call_name(c)
+            # (d) fixed-width string arrays: dtype=str is ONE character wide, 'U2' two: longer labels are silently truncated on assignment
+            dt = next((k.value for k in c.keywords if k.arg == "dtype"), None)
+            if dt is not None and nm in ("empty", "zeros", "full", "ndarray", "empty_like", "zeros_like", "full_like", "dtype", "array"):
+                width = None
+                if isinstance(dt, ast.Name) and dt.id == "str":
+                    width = 1 if nm in ("empty", "zeros", "full", "ndarray", "empty_like", "zeros_like", "full_like") else None
+                else:
+                    for y in ast.walk(dt):
+                        if isinstance(y, ast.Constant) and isinstance(y.value, str):
+                            import re as _re
+                            m_ = _re.fullmatch(r"[<>|=]?[US](\d+)", y.value)
+                            if m_:
+                                width = int(m_.group(1))
+                if width is not None:
+                    n_d += 1
+                    obs.append(Ob("G4", clause, fn, c, False,
+                                  "`%s` in %s allocates a fixed-width string array (%d character%s): element symbols, type labels and ids longer than that are silently truncated when stored "
+                                  "('Cl' -> 'C', 'Uuo' -> 'Uu'); the package keeps such data in lists or object arrays" % (ast.unparse(c)[:60], fn.qualname, width, "" if width == 1 else "s"),
+                                  slot="fixed-width-strings:%s" % fn.qualname, positive="robust"))
+            # (e) np.delete / np.insert without axis FLATTEN their argument: on an (N, 3) coordinate array one scalar is removed, not one row
+            if nm in ("delete", "insert") and isinstance(c.func, ast.Attribute) and isinstance(c.func.value, ast.Name) and c.func.value.id in ("np", "numpy") \
+                    and c.args and not any(k.arg == "axis" for k in c.keywords) and len(c.args) < (3 if nm == "delete" else 4):
+                a0 = expand(fn, c.args[0])
+                txt = ast.unparse(a0)
+                two_d = "positions" in txt or ".cell" in txt or "all_positions" in txt or any(isinstance(y, ast.Call) and call_name(y) in ("cdist",) for y in ast.walk(a0))
+                if two_d:
+                    n_e += 1
+                    obs.append(Ob("G4", clause, fn, c, False,
+                                  "`%s` in %s: np.%s without `axis` works on the FLATTENED array - on a coordinate array (N x 3) it removes one scalar, not one atom's row, and returns a 1-D array" % (
+                                      ast.unparse(c)[:60], fn.qualname, nm), slot="delete-without-axis:%s" % fn.qualname, positive="robust"))
     obs.append(Ob("G4", clause, fns[0], fns[0].node, True, "%d functions in scope: %d ndmin=2 conversions, %d groupby calls, %d isinstance(., int) tests on parameters inspected" % (len(fns), n_a, n_b, n_c),
                   construct="container pitfall inventory", slot="inventory"))
     return obs
@@ -449,6 +483,143 @@ def G6_stale_loop_cache(repo, clause, scope=ALL_LIB):
                                       slot="stale-cache:%s:%s" % (fn.qualname, v), positive=not fresh))
     obs.append(Ob("G6", clause, fns[0], fns[0].node, True, "%d functions in scope, %d inner-loop locals computed from an outer loop variable under a condition" % (len(fns), n),
                   construct="stale loop cache inventory", slot="inventory"))
+    return obs
+
+
+def _loop_derived(fn, loop):
+    """names bound by the loop target or assigned inside the body from expressions that mention such names (fixpoint)"""
+    derived = {y.id for y in ast.walk(loop.target) if isinstance(y, ast.Name)}
+    for _ in range(5):
+        grew = False
+        for x in ast.walk(loop):
+            if isinstance(x, ast.Assign) and any(isinstance(y, ast.Name) and y.id in derived for y in ast.walk(x.value)):
+                for t in x.targets:
+                    for y in ast.walk(t):
+                        if isinstance(y, ast.Name) and isinstance(y.ctx, ast.Store) and y.id not in derived:
+                            derived.add(y.id)
+                            grew = True
+        if not grew:
+            break
+    return derived
+
+
+def G11_loop_exit_discipline(repo, clause, scope=ALL_LIB):
+    """`if <test on the current item>: break` with nothing else in the branch, in a loop that accumulates results, ends the WHOLE loop because one
+    item is uninteresting: the items after it are silently never processed (the guard clause that was meant is `continue`).  A break that belongs to a
+    search (`found = x; break`), one whose test reads the accumulated state, and the reverse slip are not this rule's business.
+    Also: an `except` / fallback branch inside such a loop that resets the accumulator but lets the loop run on."""
+    obs = []
+    fns = _scope_fns(repo, scope)
+    n = 0
+    for fn in fns:
+        for loop in [x for x in fn.own_nodes() if isinstance(x, ast.For)]:
+            accs = set()
+            for x in ast.walk(loop):
+                if isinstance(x, ast.Call) and isinstance(x.func, ast.Attribute) and x.func.attr in ("append", "extend", "add", "update", "write", "writelines") \
+                        and isinstance(x.func.value, ast.Name):
+                    accs.add(x.func.value.id)
+                elif isinstance(x, ast.AugAssign) and isinstance(x.target, ast.Name):
+                    accs.add(x.target.id)
+            if not accs:
+                continue
+            derived = _loop_derived(fn, loop)
+            for br in [x for x in ast.walk(loop) if isinstance(x, ast.Break)]:
+                owner = next((a for a in fn.ancestors(br) if isinstance(a, (ast.For, ast.While))), None)
+                if owner is not loop:
+                    continue
+                par = fn.parents.get(br)
+                if not (isinstance(par, ast.If) and len(par.body) == 1 and par.body[0] is br and not par.orelse):
+                    continue
+                if fn.parents.get(par) is not loop or not any(par is x for x in loop.body):
+                    continue       # only guard clauses at the top level of the body
+                n += 1
+                names = {y.id for y in ast.walk(par.test) if isinstance(y, ast.Name)}
+                about_item = bool(names & derived) and not (names & accs)
+                # statements of this iteration before the guard that already accumulated something make it a "stop after this one" break
+                k = next(i for i, x in enumerate(loop.body) if x is par)
+                acted = any(isinstance(y, ast.Call) and isinstance(y.func, ast.Attribute) and isinstance(y.func.value, ast.Name) and y.func.value.id in accs
+                            for x in loop.body[:k] for y in ast.walk(x))
+                rest_accumulates = any(isinstance(y, ast.Call) and isinstance(y.func, ast.Attribute) and isinstance(y.func.value, ast.Name) and y.func.value.id in accs
+                                       for x in loop.body[k + 1:] for y in ast.walk(x)) or any(isinstance(y, ast.AugAssign) for x in loop.body[k + 1:] for y in ast.walk(x))
+                bad = about_item and not acted and rest_accumulates
+                obs.append(Ob("G11", clause, fn, par, not bad,
+                              "guard clause `if %s: break` in the loop over `%s` of %s: %s" % (
+                                  ast.unparse(par.test)[:50], ast.unparse(loop.iter)[:40], fn.qualname,
+                                  "does not skip items" if not bad else
+                                  "the test is about the CURRENT item only, nothing was done for it yet, and the rest of the body accumulates into `%s`: every later item is silently "
+                                  "dropped as soon as one item fails the test (the guard that skips one item is `continue`)" % ", ".join(sorted(accs))),
+                              slot="guard-break:%s:%s" % (fn.qualname, ast.unparse(loop.iter)[:30]), positive="robust" if bad else False))
+    obs.append(Ob("G11", clause, fns[0], fns[0].node, True, "%d functions in scope, %d guard-clause breaks in accumulating loops inspected" % (len(fns), n),
+                  construct="loop exit inventory", slot="inventory"))
+    return obs
+
+
+def _is_set_expr(fn, e, depth=3):
+    """Is the value of e a set (unordered)?  set(...) / {..} / set comprehension / set algebra of such / a local bound once to such."""
+    if isinstance(e, (ast.Set, ast.SetComp)):
+        return True
+    if isinstance(e, ast.Call) and isinstance(e.func, ast.Name) and e.func.id in ("set", "frozenset"):
+        return True
+    if isinstance(e, ast.Call) and isinstance(e.func, ast.Attribute) and e.func.attr in ("difference", "union", "intersection", "symmetric_difference") \
+            and _is_set_expr(fn, e.func.value, depth):
+        return True
+    if isinstance(e, ast.BinOp) and isinstance(e.op, (ast.Sub, ast.BitAnd, ast.BitOr, ast.BitXor)):
+        return _is_set_expr(fn, e.left, depth) and _is_set_expr(fn, e.right, depth)
+    if isinstance(e, ast.Name) and depth > 0 and fn.stmt_of(e) is not None:
+        uv = fn.rd.unique_value(e)
+        if uv is not None:
+            return _is_set_expr(fn, uv[1], depth - 1)
+    return False
+
+
+def G12_set_order(repo, clause, scope=ALL_LIB):
+    """list(<set>) / iteration over a set has no defined order (for integers it is hash-slot order, not ascending, not insertion order).  Using such a list as a
+    row selector (fancy index, np.take, positions of appended atoms), enumerating it, or building an ordered result from it makes the result depend on
+    hashing: sorted(...) is the ordered spelling.  Membership tests, lengths, set algebra and arguments of functions that sort are fine."""
+    obs = []
+    fns = _scope_fns(repo, scope)
+    n = 0
+    for fn in fns:
+        for c in [x for x in fn.own_nodes() if isinstance(x, ast.Call) and isinstance(x.func, ast.Name) and x.func.id in ("list", "tuple") and len(x.args) == 1]:
+            if not _is_set_expr(fn, c.args[0]):
+                continue
+            n += 1
+            # what is the list used for?
+            par = fn.parents.get(c)
+            st = fn.stmt_of(c)
+            uses = []
+            if isinstance(st, ast.Assign) and len(st.targets) == 1 and isinstance(st.targets[0], ast.Name) and st.value is c:
+                nm = st.targets[0].id
+                uses = [u for u in fn.own_nodes() if isinstance(u, ast.Name) and u.id == nm and isinstance(u.ctx, ast.Load)]
+            else:
+                uses = [c]
+            ordered_use = None
+            for u in uses:
+                p1 = fn.parents.get(u)
+                # row selector: X[u], X[u, :], np.take(X, u), X.take(u)
+                if isinstance(p1, ast.Subscript) and p1.slice is u:
+                    ordered_use = "`%s` selects rows in that order" % ast.unparse(p1)[:50]
+                elif isinstance(p1, ast.Tuple) and isinstance(fn.parents.get(p1), ast.Subscript) and fn.parents.get(p1).slice is p1:
+                    ordered_use = "`%s` selects rows in that order" % ast.unparse(fn.parents.get(p1))[:50]
+                elif isinstance(p1, ast.Call) and call_name(p1) in ("take", "enumerate", "array", "zip") and any(a is u for a in p1.args):
+                    if call_name(p1) != "array" or not any(isinstance(a2, ast.Call) and call_name(a2) in ("sorted", "sort", "isin", "in1d", "delete") for a2 in fn.ancestors(p1)):
+                        ordered_use = "`%s` depends on that order" % ast.unparse(p1)[:50]
+                elif isinstance(p1, (ast.For, ast.comprehension)) and p1.iter is u:
+                    holder = p1 if isinstance(p1, ast.For) else fn.parents.get(p1)
+                    if isinstance(holder, ast.For):
+                        if any(isinstance(y, ast.Call) and isinstance(y.func, ast.Attribute) and y.func.attr in ("append", "extend", "write") for y in ast.walk(holder)):
+                            ordered_use = "the loop over it builds an ordered result"
+                    elif isinstance(holder, (ast.ListComp, ast.GeneratorExp)):
+                        hp = fn.parents.get(holder)
+                        if not (isinstance(hp, ast.Call) and call_name(hp) in ("set", "frozenset", "sorted", "sum", "any", "all", "min", "max", "len")):
+                            ordered_use = "the comprehension over it builds an ordered result"
+            obs.append(Ob("G12", clause, fn, c, ordered_use is None,
+                          "`%s` in %s turns a set into a sequence: %s" % (ast.unparse(c)[:60], fn.qualname,
+                                                                           "the order is not used" if ordered_use is None else
+                                                                           ordered_use + ", but a set has no defined order (hash-slot order for integers: 8 comes before 5 in {5, 6, 7, 8}); sorted(...) keeps the documented order"),
+                          slot="set-order:%s:%s" % (fn.qualname, ast.unparse(c)[:40]), positive="robust" if ordered_use else False))
+    obs.append(Ob("G12", clause, fns[0], fns[0].node, True, "%d functions in scope, %d set-to-sequence conversions inspected" % (len(fns), n),
+                  construct="set order inventory", slot="inventory"))
     return obs
 
 
